@@ -34,6 +34,12 @@ def main():
                 sh(["git", "checkout", "-q", "--detach", commit + "^"], wt)
                 mode = "parent tree"
             b = sh(["go", "build", "./..."], wt)
+            if b.returncode != 0 and mode == "revert":
+                # a later fix uses something this commit introduced: check the commit's parent tree instead
+                sh(["git", "reset", "-q", "--hard", head], wt)
+                sh(["git", "checkout", "-q", "--detach", commit + "^"], wt)
+                mode = "parent tree"
+                b = sh(["go", "build", "./..."], wt)
             for prop in sorted(set(f["property"] for f in fs)):
                 r = sh([os.path.join(tmp, "wrverif"), "-repo", wt, "-verif", vdir, "-property", prop])
                 vio = []
